@@ -342,6 +342,14 @@ class Exec:
     def e_JoinedStr(self, st, n):
         return '<f-string>'      # only ever an argument of print(); never inspected
 
+    def e_Yield(self, st, n):
+        """generator functions: a ``yield`` appends its value to the ghost sequence of yielded values (contract option 'yield_hook')"""
+        h = self.c.get('yield_hook')
+        if h is None:
+            raise NotInSubset('yield (the contract has no yield_hook)')
+        h(self, st, self.ev(st, n.value) if n.value is not None else None, n)
+        return None
+
     def e_Tuple(self, st, n):
         out = []
         for x in n.elts:
@@ -353,6 +361,19 @@ class Exec:
 
     def e_List(self, st, n):
         return list(self.e_Tuple(st, n))
+
+    def e_Dict(self, st, n):
+        if any(k is None for k in n.keys):
+            raise NotInSubset('dict literal with ** unpacking')
+        keys, vals = [self.ev(st, k) for k in n.keys], [self.ev(st, v) for v in n.values]
+        h = self.c.get('dict_hook')
+        if h is not None:
+            r = h(self, st, keys, vals, n)
+            if r is not NotImplemented:
+                return r
+        if any(is_sym(k) or isinstance(k, Model) for k in keys):
+            raise NotInSubset('dict literal with symbolic keys')
+        return dict(zip(keys, vals))
 
     def e_Slice(self, st, n):
         return slice(self.ev(st, n.lower) if n.lower else None, self.ev(st, n.upper) if n.upper else None,
